@@ -547,7 +547,9 @@ def run_sync_case(ctx, case):
 
     kind, dq, tq = case["kind"], case["dur_q"], case["timeout_q"]
     dur = dq * Q
-    timeout = None if tq is None else tq * Q
+    BOUNDARY = {"int0": 0, "float0": 0.0, "tiny": 1e-9}
+    boundary = isinstance(tq, str)
+    timeout = None if tq is None else (BOUNDARY[tq] if boundary else tq * Q)
     seen = {"cancelled": False, "started": 0}
     err = CbError("rs")
     labels = {"run_sync", "run_sync." + kind}
@@ -605,17 +607,43 @@ def run_sync_case(ctx, case):
         f.set_result("value")
         return f
 
-    fns = dict(coro_value=coro_value, coro_raise=coro_raise, coro_never=coro_never, sync_none=sync_none,
+    async def coro_nowait():
+        # finishes without awaiting anything, but as a coroutine it still needs one later loop turn to run at all
+        seen["started"] += 1
+        return "value"
+
+    fns = dict(coro_nowait=coro_nowait, coro_value=coro_value, coro_raise=coro_raise, coro_never=coro_never, sync_none=sync_none,
                sync_raise=sync_raise, future_never=future_never, gen_value=gen_value, done_future=done_future)
     sleeping = kind in ("coro_value", "coro_raise", "gen_value")
     never = kind in ("coro_never", "future_never")
-    if sleeping and timeout is not None and dur == timeout:
-        timeout = dur + Q  # ties are not generated
-    if never and timeout is None:
-        timeout = Q
-    if kind == "gen_value" and timeout is not None and timeout < dur:
-        timeout = None  # cancellation of decorated coroutines is an excluded class
-    times_out = never or (sleeping and timeout is not None and timeout < dur)
+    synchronous = kind in ("sync_none", "sync_raise", "done_future")  # outcome known when func() returns
+    native = kind in ("coro_value", "coro_raise", "coro_never", "coro_nowait")
+    either = False
+    if not boundary:
+        if sleeping and timeout is not None and dur == timeout:
+            timeout = dur + Q  # ties are not generated
+        if never and timeout is None:
+            timeout = Q
+        if kind == "gen_value" and timeout is not None and timeout < dur:
+            timeout = None  # cancellation of decorated coroutines is an excluded class
+        times_out = never or (sleeping and timeout is not None and timeout < dur)
+    else:
+        # Boundary timeouts.  Documentation: `timeout` "may be used to set a maximum duration for the function.  If
+        # the timeout expires, a TimeoutError is raised" (and since 5.0 the function is cancelled).  A timeout of 0
+        # (int or float) is a timeout that has expired as soon as the loop looks at it: whatever still needs a
+        # later loop turn (any coroutine - even one that awaits nothing only runs on the next turn -, a pending
+        # future) must time out.  A function whose outcome is already known when func() returns is not decided
+        # by the documentation (finished "at" the deadline): EITHER.  A tiny positive timeout (1e-9, below one
+        # ulp of the clock) against something needing zero virtual time but a later turn is a tie: EITHER.
+        labels.add("run_sync_timeout_" + tq)
+        if synchronous:
+            either = True
+            times_out = False
+        elif timeout == 0 or never or (sleeping and dur > 0):
+            times_out = True
+        else:
+            either = True
+            times_out = False
     with Logs() as logs, vtime.virtual_loop() as (loop, io):
         loop.auto_advance = True
         t0 = loop.time()
@@ -633,20 +661,27 @@ def run_sync_case(ctx, case):
             return
         elapsed = loop.time() - t0
         detail = {"case": case, "outcome": repr(outcome), "elapsed": elapsed, "timeout": timeout, "dur": dur}
-        if seen["started"] != 1:
+        # a native coroutine cancelled before its first step never executes its body (started == 0)
+        timed = outcome[0] == "timeout"
+        if seen["started"] > 1 or (seen["started"] == 0 and not (native and timed)):
             ctx.fail("C38.run_sync.function_called_%d_times" % seen["started"], detail)
+        if either and timed:
+            labels.add("run_sync_either_timed_out")
+            times_out = True
+        elif either:
+            labels.add("run_sync_either_completed")
         if times_out:
             labels.add("run_sync_timeout")
             if outcome[0] != "timeout":
                 ctx.fail("C38.run_sync.no_timeout_error", detail)
-            if kind != "future_never" and not seen["cancelled"]:
+            if native and seen["started"] and not seen["cancelled"]:
                 ctx.fail("C38.run_sync.coroutine_not_cancelled", detail)
-            if kind == "future_never" and not never_fut[0].cancelled():
+            if kind == "future_never" and never_fut and not never_fut[0].cancelled():
                 ctx.fail("C38.run_sync.future_not_cancelled", detail)
             if elapsed < timeout:
                 ctx.fail("C38.run_sync.timed_out_early", detail)
         else:
-            if kind in ("coro_value", "gen_value", "done_future"):
+            if kind in ("coro_value", "gen_value", "done_future", "coro_nowait"):
                 want = ("ok", "value")
             elif kind == "sync_none":
                 want = ("ok", None)
@@ -716,9 +751,11 @@ THREADS = st.one_of(
 
 RUN_SYNC = st.fixed_dictionaries({
     "kind": st.sampled_from(["coro_value", "coro_value", "coro_raise", "coro_never", "sync_none", "sync_raise",
-                             "future_never", "gen_value", "done_future"]),
+                             "future_never", "gen_value", "done_future", "coro_nowait"]),
     "dur_q": st.sampled_from([0, 1, 2, 4, 8, 40]),
-    "timeout_q": st.one_of(st.none(), st.sampled_from([1, 2, 3, 4, 8, 20, 400])),
+    # quarter seconds, or a boundary value: int 0 / float 0.0 / 1e-9 (below one ulp of the epoch-scale clock)
+    "timeout_q": st.one_of(st.none(), st.sampled_from([1, 2, 3, 4, 8, 20, 400]), st.sampled_from([1, 2, 3, 4, 8, 20, 400]),
+                           st.sampled_from(["int0", "float0", "tiny"])),
 })
 
 PARTS = {"main": run_main, "threads": run_threads, "run_sync": run_sync_case}
@@ -727,5 +764,5 @@ PARTS = {"main": run_main, "threads": run_threads, "run_sync": run_sync_case}
 def main(ctx):
     ctx.run_replays(PARTS)
     ctx.explore(PROGRAM, run_main, ctx.n(1000, 60000), name="main")
-    ctx.explore(RUN_SYNC, run_sync_case, ctx.n(150, 3000), name="run_sync")
+    ctx.explore(RUN_SYNC, run_sync_case, ctx.n(250, 4000), name="run_sync")
     ctx.explore(THREADS, run_threads, ctx.n(60, 2400), name="threads")
